@@ -112,7 +112,7 @@ class Sim(object):
                 finally:
                     os._exit(status)
         os.close(w)
-        deadline = time.monotonic() + spec.get('alarm', 60) + 15
+        deadline = time.monotonic() + spec.get('alarm', 30) + 15
         chunks = []
         killed = False
         while True:
